@@ -2,11 +2,17 @@
     In the model every function is total by construction; what could go wrong in the Go code is made explicit
     as outcomes: [OPanic] (an index or slice out of range), [OHang] (the model's step budget, linear in the input,
     used up) and [ODeadlock] (one lexer state call sends more tokens than the channel holds, so the lexer, which
-    runs in the parser's goroutine, would block for ever).  Proved here for EVERY input: no deadlock.  That [OPanic]
-    and [OHang] never occur is established by the correspondence run only (every prefix, deletion and insertion of
-    generated files, random bytes, size-scaling families), not by a theorem: labelled partial.
-    OBLIGATIONS: C06_state_call_emits_few C06_lexer_never_blocks C06_compile_never_deadlocks C06_nonvacuous *)
-From GV Require Import Compiler.Compile Proofs.LexProofs Proofs.NoDeadlockProofs.
+    runs in the parser's goroutine, would block for ever).  Proved here for EVERY input: no deadlock and no panic.
+    The panic outcome stands for the ten index and slice expressions of lexer.go (l.pos[len(l.pos)-1] in next and
+    backup, l.pos[:len(l.pos)-1], l.s[:len(l.s)-l.width] in backup, skip, skipRun and skipUntil, l.pos[line-1] in
+    position); the model sets its panic flag exactly where one of them would be out of range, and the theorem is an
+    invariant of the cursor (the per-line rune counts are never negative, there is one more line than the pending
+    string has newlines, and a rune that was just read can be given back) kept by every state function.
+    That [OHang] never occurs is established by the correspondence run only (every prefix, deletion and insertion
+    of generated files, random bytes, size-scaling families), not by a theorem: labelled partial.
+    OBLIGATIONS: C06_state_call_emits_few C06_lexer_never_blocks C06_compile_never_deadlocks C06_cursor_stays_in_range
+                 C06_lexer_never_panics C06_compile_never_panics C06_nonvacuous *)
+From GV Require Import Compiler.Compile Proofs.LexProofs Proofs.NoDeadlockProofs Proofs.LexSafeProofs Proofs.NoPanicProofs.
 From Coq Require Import Lia.
 
 (** every state function, on every cursor, sends at most four tokens (the channel holds [c_token_queue_cap] tokens,
@@ -24,12 +30,31 @@ Theorem C06_compile_never_deadlocks : forall input, compile_parse input <> ODead
 Proof. exact compile_never_deadlocks. Qed.
 Print Assumptions C06_compile_never_deadlocks.
 
+(** every state function, from every cursor that satisfies the invariant, leaves a cursor that satisfies it
+    (in particular with the panic flag down); the first cursor satisfies it *)
+Theorem C06_cursor_stays_in_range : forall st l input, (Base l -> Base (snd (step st l))) /\ Base (init_lex input).
+Proof. intros st l input. split; [apply step_base|apply init_base]. Qed.
+Print Assumptions C06_cursor_stays_in_range.
+
+Theorem C06_lexer_never_panics : forall fuel lx, safe lx ->
+  match next_token fuel lx with PTok _ lx' => safe lx' | PDeadlock => False | PPanic => False | PHang => True end.
+Proof. exact next_token_safe. Qed.
+Print Assumptions C06_lexer_never_panics.
+
+Theorem C06_compile_never_panics : forall input, compile_parse input <> OPanic.
+Proof. exact compile_never_panics. Qed.
+Print Assumptions C06_compile_never_panics.
+
 (** non-vacuity / smoke: the model compiles a small template and rejects a truncated one *)
 Example C06_nonvacuous :
   (match compile_parse (lit "@goht T() {" ++ [10; 9] ++ lit "%p x" ++ [10] ++ lit "}" ++ [10]) with
    | ODone _ None => true | _ => false end) = true /\
   (match compile_parse (lit "@goht T() {" ++ [10; 9] ++ lit "%a{@attributes") with
    | ODone _ (Some _) => true | _ => false end) = true /\
-  lok (new_lexer (lit "x")).
-Proof. split; [vm_compute; reflexivity|]. split; [vm_compute; reflexivity|reflexivity]. Qed.
+  lok (new_lexer (lit "x")) /\
+  (* the panic outcome is expressible: giving back a rune on a cursor that violates the invariant raises the flag,
+     and the pump reports it *)
+  l_panic (backup (mkL [] [] None [65] 1 [0%Z] 0 [] false)) = true /\
+  (match next_token 5 (mkLexer SGohtLineStart (mkL [] (lit "x") None [] 0 [] 0 [] false) [] false) with PPanic => true | _ => false end) = true.
+Proof. split; [vm_compute; reflexivity|]. split; [vm_compute; reflexivity|]. split; [reflexivity|]. split; vm_compute; reflexivity. Qed.
 Print Assumptions C06_nonvacuous.
